@@ -98,7 +98,7 @@ class _PooledTransport:
     pool-specific attributes (``shm``, ``_stream_opened``).
     """
 
-    __slots__ = ("_inner", "_last_stream_session", "_pool", "_returned", "_shm", "_stream_opened")
+    __slots__ = ("_inner", "_pool", "_returned", "_shm", "_stream_sessions", "_streams_started")
 
     def __init__(self, inner: SubprocessTransport, pool: WorkerPool, shm: ShmSegment | None = None) -> None:
         """Initialize wrapping *inner* transport, owned by *pool*."""
@@ -106,8 +106,34 @@ class _PooledTransport:
         self._pool = pool
         self._returned = False
         self._shm = shm
-        self._stream_opened = False
-        self._last_stream_session: StreamSession | None = None
+        # Every stream request sent on this borrow and every session object
+        # that came out of it.  Looking only at the most recent session would
+        # miss a stream abandoned *before* it, or a stream whose init failed
+        # after an earlier stream had been closed cleanly.
+        self._streams_started = 0
+        self._stream_sessions: list[StreamSession] = []
+
+    @property
+    def _stream_opened(self) -> bool:
+        """Whether a stream request was sent on this borrow (set by the client proxy)."""
+        return self._streams_started > 0
+
+    @_stream_opened.setter
+    def _stream_opened(self, value: bool) -> None:
+        if value:
+            self._streams_started += 1
+
+    @property
+    def _last_stream_session(self) -> StreamSession | None:
+        """The most recent stream session (set by the client proxy once a stream is open)."""
+        return self._stream_sessions[-1] if self._stream_sessions else None
+
+    @_last_stream_session.setter
+    def _last_stream_session(self, session: StreamSession | None) -> None:
+        if session is None:
+            self._stream_sessions.clear()
+        else:
+            self._stream_sessions.append(session)
 
     @property
     def reader(self) -> IOBase:
@@ -135,9 +161,10 @@ class _PooledTransport:
             return
         self._returned = True
         self._shm = None
-        # A stream is "abandoned" if it was opened but not cleanly closed
-        stream_abandoned = self._stream_opened and (
-            self._last_stream_session is None or not self._last_stream_session._closed
+        # A stream is "abandoned" if it was opened but not cleanly closed: a
+        # request that never produced a session, or any session left open.
+        stream_abandoned = self._streams_started != len(self._stream_sessions) or any(
+            not session._closed for session in self._stream_sessions
         )
         self._last_stream_session = None
         try:
